@@ -97,7 +97,7 @@ inductive SpecOut where
   | files (l : List (OutName × List String))
   /-- a diagnostic is printed and no written file holds one of `bad` -/
   | rejected (bad : List String)
-  deriving Repr
+  deriving Repr, DecidableEq
 
 /-- placeholder source of the all-in-one file when no go:generate line matches: any source file will do -/
 def anySrc : String := "*"
@@ -202,7 +202,19 @@ def candsOK (pkg : Pkg) (n : String) : Bool :=
 def enumFatal (pkg : Pkg) (n : String) : Bool :=
   match findDecl pkg n with
   | none => false
-  | some (_, t) => t.alias || (!(goConsts n pkg).isEmpty && (match t.under with | some k => !k.integer | none => false))
+  | some (_, t) => t.alias || (!(goConsts n pkg).isEmpty && nonIntUnder t)
+
+/-- `-file` names no file of the package -/
+def fileMissing (pkg : Pkg) (file : Option String) : Bool :=
+  match file with
+  | some f => !(pkg.map File.name).contains f
+  | none => false
+
+/-- every named type is declared in the `-file` file (if one is given): confirmTypes passes -/
+def allInFile (pkg : Pkg) (ns : List String) (file : Option String) : Bool :=
+  match file with
+  | none => true
+  | some f => ns.all (fun n => fileOf pkg n == some f)
 
 def region (cmd : Cmd) (pkg : Pkg) (fl : Flags) : Region :=
   if !validPkg pkg then .Out else
@@ -210,11 +222,11 @@ def region (cmd : Cmd) (pkg : Pkg) (fl : Flags) : Region :=
   | none => .Out
   | some (.named ns file) =>
     if !ns.Nodup then .Out
-    else if (match file with | some f => !(pkg.map File.name).contains f | none => false) then .Out
+    else if fileMissing pkg file then .Out
     else if !ns.all (candsOK pkg) then .F_getgofile
     else
       let bad := ns.filter (fun n => !good cmd pkg file n)
-      let inFile := match file with | none => true | some f => ns.all (fun n => fileOf pkg n == some f)
+      let inFile := allInFile pkg ns file
       if bad.isEmpty then .WF
       else if cmd == Cmd.rest && inFile then .F_rest_badname
       else if cmd == Cmd.enum && inFile && !ns.any (enumFatal pkg) && ns.any (good cmd pkg file) then .F_enum_silent
